@@ -1,0 +1,30 @@
+// Copyright 2025 SCION Association
+//
+// Licensed under the Apache License, Version 2.0 (the "License");
+// you may not use this file except in compliance with the License.
+// You may obtain a copy of the License at
+//
+//   http://www.apache.org/licenses/LICENSE-2.0
+//
+// Unless required by applicable law or agreed to in writing, software
+// distributed under the License is distributed on an "AS IS" BASIS,
+// WITHOUT WARRANTIES OR CONDITIONS OF ANY KIND, either express or implied.
+// See the License for the specific language governing permissions and
+// limitations under the License.
+
+//go:build !verif
+
+package router
+
+// VerifYield, VerifActor, verifPoolGet and verifPoolPut are seams for deterministic simulation.
+// Without the verif build tag they are empty and inlined away.
+
+// VerifYield marks a synchronisation point of the data path.
+func VerifYield(string) {}
+
+// VerifActor names the calling long-lived goroutine.
+func VerifActor(string, int) {}
+
+func verifPoolGet(*Packet) {}
+
+func verifPoolPut(*Packet) {}
